@@ -1191,9 +1191,15 @@ func (vc *VC) mapDelete(st *State, ref string, m *types.Map, key Val) {
 	}
 	// len(m) is the cardinality of the domain: if the map is empty after the deletion it has no key left
 	if vc.inBinder == 0 {
+		// The length and the domain are named by fresh constants (definitional extension): the heap terms are
+		// define-fun chains of store/ite, and z3 expands them as a TREE under a binder (select is pushed through
+		// every store and ite), which is exponential in the number of map writes and branch merges before the
+		// delete (FaceModule.update: the first push did not finish).
 		qk := vc.freshName("q_k")
-		nl := sel(vc.heap(st, "Ml|"+canon(m), arraySort("Int", "Int")), ref)
-		nd := sel(vc.heap(st, dn, ds), ref)
+		nl := vc.fresh("mdl", "Int")
+		vc.assert(eq(nl, sel(vc.heap(st, "Ml|"+canon(m), arraySort("Int", "Int")), ref)))
+		nd := vc.fresh("mdd", arraySort(mapKeySort(m), "Bool"))
+		vc.assert(eq(nd, sel(vc.heap(st, dn, ds), ref)))
 		vc.assert(implies(eq(nl, "0"), forall([][2]string{{qk, mapKeySort(m)}}, not(sel(nd, qk)))))
 	}
 }
